@@ -18,6 +18,7 @@
    assumptions-on-attacks variants and the wrapper. *)
 From Crusta Require Import Model.Dynamic Proofs.SolverBasics Proofs.DynDefs Proofs.DynProofs Proofs.DynSafe
   Proofs.DynFunDefs Proofs.DynFun Proofs.CompProofs Proofs.SolverWholeEx.
+From Crusta Require Proofs.DynAttDefs Proofs.TopMax Proofs.Clauses2.
 
 Section C09.
 Variable L : Type.
@@ -118,6 +119,54 @@ Theorem C09_later_answers_ignore_noop_updates :
   end.
 Proof. exact (DynFun.dyn_functional_effective L leqb leqb_spec). Qed.
 
+(* ---- the first two sentences of the property text, clause by clause, in terms of the framework the
+   caller has built ([run_ops fresh os]) rather than of [classify] (Proofs/Clauses2.v); all six kinds *)
+(* (8) "Adding an argument or an attack that is already present is a no-op": the call reports Ok and the
+   framework the solver keeps for its caller is EQUAL (the solver's own framework, the encoder and
+   the replay cursor are untouched by any update: C09_rejected_update_leaves_state) *)
+Theorem C09_adding_present_is_noop : forall k s os, reach k s os ->
+  (forall l id, get_argument L leqb (run_ops fresh os) l = Some id ->
+     snd (dyn_update L leqb s (OpNewArg l)) = ROk /\
+     spec_fw L (fst (dyn_update L leqb s (OpNewArg l))) = spec_fw L s) /\
+  (forall a b x y, get_argument L leqb (run_ops fresh os) a = Some x ->
+     get_argument L leqb (run_ops fresh os) b = Some y -> In (x, y) (iter_attacks L (run_ops fresh os)) ->
+     snd (dyn_update L leqb s (OpNewAtt a b)) = ROk /\
+     spec_fw L (fst (dyn_update L leqb s (OpNewAtt a b))) = spec_fw L s).
+Proof. exact (Clauses2.redundant_update_noop L leqb leqb_spec). Qed.
+
+(* (9) "removing an unknown argument or attack, or adding an attack to or from an unknown argument, is
+   reported as an error by the update call itself" - and the framework kept for the caller is EQUAL
+   (for the five buffered kinds the whole solver state is: C09_rejected_update_leaves_state) *)
+Theorem C09_invalid_update_is_error : forall k s os, reach k s os ->
+  (forall l, get_argument L leqb (run_ops fresh os) l = None ->
+     snd (dyn_update L leqb s (OpRemArg l)) = RErr /\
+     spec_fw L (fst (dyn_update L leqb s (OpRemArg l))) = spec_fw L s) /\
+  (forall a b, get_argument L leqb (run_ops fresh os) a = None \/ get_argument L leqb (run_ops fresh os) b = None ->
+     (snd (dyn_update L leqb s (OpNewAtt a b)) = RErr /\
+      spec_fw L (fst (dyn_update L leqb s (OpNewAtt a b))) = spec_fw L s) /\
+     (snd (dyn_update L leqb s (OpRemAtt a b)) = RErr /\
+      spec_fw L (fst (dyn_update L leqb s (OpRemAtt a b))) = spec_fw L s)) /\
+  (forall a b x y, get_argument L leqb (run_ops fresh os) a = Some x ->
+     get_argument L leqb (run_ops fresh os) b = Some y -> ~ In (x, y) (iter_attacks L (run_ops fresh os)) ->
+     snd (dyn_update L leqb s (OpRemAtt a b)) = RErr /\
+     spec_fw L (fst (dyn_update L leqb s (OpRemAtt a b))) = spec_fw L s).
+Proof. exact (Clauses2.invalid_update_error L leqb leqb_spec). Qed.
+
+(* (10) (7) for the assumptions-on-attacks variants (KCoAtt, KStAtt; [areach]: Proofs/DynAttDefs.v, see
+   Properties/C08att.v): all later answers - computed or cached - are those of the framework built by
+   the valid updates alone.  [acc_spec sm pol cert F [id] (b, c)] (Proofs/TopMax.v) is the condition
+   spelled out in (7): status iff credulous (pol = true) / skeptical acceptance; certificate exactly
+   when promised, a duplicate-free extension of live arguments containing / omitting id.
+   That no such query panics: C09_att_query_never_panics; the wrapper: C08_dummy_functional *)
+Theorem C09_att_later_answers_ignore_noop_updates :
+  forall oracle k s ps os thr fuel q cert l s' b c ps',
+  valid_oracle oracle -> DynAttDefs.areach L leqb oracle k s ps os -> DynAttDefs.att_kind k ->
+  let f := run_ops fresh (effective L leqb fresh os) in
+  forall id, get_argument L leqb f l = Some id ->
+  dyn_query oracle L leqb thr fuel s q cert l ps = Done (s', (b, c)) ps' ->
+  TopMax.acc_spec (DynAttDefs.kind_spec_sem k) (DynAttDefs.query_pol q) cert (af_of f) [id] (b, c).
+Proof. exact (Clauses2.att_answers_ignore_noop_updates L leqb leqb_spec). Qed.
+
 End C09.
 
 (* the hypotheses are satisfiable: a reachable state with a redundant and an invalid update *)
@@ -157,3 +206,6 @@ Print Assumptions C09_redundant_argument_replay.
 Print Assumptions C09_query_never_panics_partial.
 Print Assumptions C09_noop_update_invisible.
 Print Assumptions C09_later_answers_ignore_noop_updates.
+Print Assumptions C09_adding_present_is_noop.
+Print Assumptions C09_invalid_update_is_error.
+Print Assumptions C09_att_later_answers_ignore_noop_updates.
